@@ -57,7 +57,9 @@ def bid_tables(v):
         ('returned-quote-overflow', 'D(I4, L-fit: price*remaining = recorded remaining quote)', any_size(lambda e, c: e['fact'] == ('is', ('rcall', 'checked_mul', (bs.P, c)), 'None'))),
         ('returned-quote-fractional', 'D(I4: price*remaining base = remaining quote, an integer)', lambda e: e['fact'] == ('val', EQ(('fract', MUL(bs.P, bs.remB)), I(0)), False)),
         ('fee-product-overflow', 'D(L-fit: ratio <= 1)', any_size(lambda e, c: e['fact'] is not None and e['fact'][0] == 'is' and e['fact'][2] == 'None' and e['fact'][1][0] == 'rcall' and e['fact'][1][1] == 'checked_mul' and bs.Ft in e['fact'][1][2])),
-        ('fee-remaining-underflow', 'D(I7, L-mono)', any_size(lambda e, c: e['fact'] == ('is', ('rcall', 'checked_sub', (bs.remF, ROUND0(MUL(bs.Ft, DIV(SUB(bs.remQ, MUL(bs.P, c)), bs.Q))))), 'Err'))),
+        # compared as polynomials: the product inside the rounding may be written in either order
+        ('fee-remaining-underflow', 'D(I7, L-mono)', any_size(lambda e, c: e['fact'] is not None and e['fact'][0] == 'is' and e['fact'][2] == 'Err' and e['fact'][1][0] == 'rcall' and e['fact'][1][1] == 'checked_sub'
+            and len(e['fact'][1][2]) == 2 and poly(e['fact'][1][2][0]) == poly(bs.remF) and poly(e['fact'][1][2][1]) == poly(ROUND0(MUL(bs.Ft, DIV(SUB(bs.remQ, MUL(bs.P, c)), bs.Q)))))),
         ('accumulator-overflow', 'D(I3, L-fit)', lambda e: e['fact'] is not None and e['fact'][0] == 'is' and e['fact'][2] == 'Err' and e['fact'][1][0] == 'rcall' and e['fact'][1][1] == 'checked_add'
             and e['fact'][1][2][0] in (bs.aB, bs.aQ, bs.aF)),
     ]
